@@ -335,6 +335,19 @@ def run(ctx):
         o.rule = 'R02a'
         keep.append(o)
     ctx.obligations[before:] = keep
+    # ... and what the sampler takes the arg-max of is an order-preserving image of the raw
+    # alpha (shared with C10 R10b): a clamp / saturation of the temperature-scaled logits ties
+    # every coefficient beyond the bound at low temperature, arg-max then returns the first
+    # of them, while export keeps arg-max(alpha)
+    before = len(ctx.obligations)
+    c10.r10b(ctx)
+    keep = []
+    for o in ctx.obligations[before:]:
+        if 'SuperNet' in o.construct:
+            continue
+        o.rule = 'R02a'
+        keep.append(o)
+    ctx.obligations[before:] = keep
     # the sampler options reach every MPS quantizer in their own slot (shared with C10 R10d):
     # a layer that receives disable_sampling in place of gumbel never re-samples, so its
     # eval-mode coefficients are not the one-hot export assumes
